@@ -39,7 +39,7 @@ func init() {
 				}
 				return 150_000
 			}, Run: c20Generator,
-				Min: map[string]int64{"strings": 100000, "implicit_repeats": 20000, "move_demoted_to_line": 5000, "subpaths": 20000, "arcs": 20000, "no_transform": 10000, "with_transform": 50000, "relative_first_move": 10000, "transform_slice_reused": 10000,
+				Min: map[string]int64{"strings": 100000, "implicit_repeats": 20000, "move_demoted_to_line": 5000, "subpaths": 20000, "arcs": 20000, "no_transform": 10000, "with_transform": 50000, "relative_first_move": 10000, "transform_slice_reused": 10000, "transform_reset_to_identity": 10000, "transform_replaced": 10000, "pure_translation_transforms": 2000,
 					"verb_H": 1000, "verb_h": 1000, "verb_V": 1000, "verb_v": 1000, "verb_T": 1000, "verb_t": 1000, "verb_S": 1000, "verb_s": 1000, "verb_Q": 1000, "verb_q": 1000, "verb_C": 1000, "verb_c": 1000, "verb_A": 1000, "verb_a": 1000}},
 			{Name: "converter", N: func(t string) uint64 {
 				if t == "thorough" {
@@ -170,12 +170,32 @@ func c20Generator(c *run.Ctx, idx uint64) {
 	g := generate.Generator{}
 	d := &rec.Dest{}
 	g.SetDestination(d)
-	mode := r.Intn(6)
+	mode := r.Intn(8)
 	var tdesc string
 	switch mode {
 	case 0:
 		c.Count("no_transform", 1)
 		tdesc = "none"
+	case 6:
+		// a Generator that had a transform, reset to the identity by SetTransform()
+		g.SetTransform(generate.Scale(3, 0.5), generate.Translate(7, -9))
+		if r.Bool() {
+			pre := &rec.Dest{}
+			g.SetDestination(pre)
+			g.SetPathData("M1 2L3 4z", 0)
+			g.SetDestination(d)
+		}
+		g.SetTransform()
+		c.Count("transform_reset_to_identity", 1)
+		tdesc = "Scale(3,0.5) Translate(7,-9), then SetTransform() with no arguments"
+	case 7:
+		// a second SetTransform replaces the first, it does not compose with it
+		g.SetTransform(generate.Scale(3, 0.5), generate.Translate(7, -9))
+		fsx, ftx, fty := float32(r.PickF(2, 0.25, -1.5)), float32(r.Range(-20, 20)), float32(r.Range(-20, 20))
+		g.SetTransform(generate.Scale(fsx), generate.Translate(ftx, fty))
+		sx, sy, tx, ty = float64(fsx), float64(fsx), float64(ftx), float64(fty)
+		c.Count("transform_replaced", 1)
+		tdesc = fmt.Sprintf("Scale(3,0.5) Translate(7,-9), then replaced by Scale(%g) Translate(%g,%g)", fsx, ftx, fty)
 	default:
 		c.Count("with_transform", 1)
 		fsx, fsy := float32(r.LogUniform(0.05, 20)), float32(r.LogUniform(0.05, 20))
